@@ -40,7 +40,7 @@ def outdir(prop, tier):
 
 
 ASAN_ENV = {"ASAN_OPTIONS": "detect_leaks=0:abort_on_error=0:exitcode=5:allocator_may_return_null=1:handle_segv=1:allow_user_segv_handler=1",
-            "UBSAN_OPTIONS": "halt_on_error=1:exitcode=5:print_stacktrace=1"}
+            "UBSAN_OPTIONS": "halt_on_error=1:exitcode=5:print_stacktrace=1:suppressions=" + os.path.join(ROOT, "harness", "ubsan.supp")}
 
 
 def run_driver(exe, script, events, timeout=20, wall=3600, append=False):
